@@ -278,10 +278,10 @@ macro_rules! per_n {
         }
     )*};
 }
-macro_rules! per_kind2 {
-    ($body:ident; $($name:ident = ($k:expr, $j:expr)),* $(,)?) => {$(
+macro_rules! per_kind2_u {
+    ($body:ident, $unw:expr; $($name:ident = ($k:expr, $j:expr)),* $(,)?) => {$(
         #[cfg_attr(kani, kani::proof)]
-        #[cfg_attr(kani, kani::unwind(12))]
+        #[cfg_attr(kani, kani::unwind($unw))]
         #[cfg_attr(not(kani), test)]
         fn $name() {
             let dn: bool = any();
@@ -387,7 +387,13 @@ fn body_from_buffer(cap: usize) {
         k += 1;
     }
     let r = Repr::from_buffer(b);
-    finish(r, &Model { neg: false, w, len: n });
+    // inline iff at most two words (finish_k asserts the class)
+    let want = Model { neg: false, w, len: n };
+    if n <= 2 {
+        finish_k(r, &want, INLINE);
+    } else {
+        finish_k(r, &want, HEAP);
+    }
 }
 per_n!(body_from_buffer; vk_int_repr_from_buffer_c1 = 1, vk_int_repr_from_buffer_c2 = 2,
     vk_int_repr_from_buffer_c3 = 3, vk_int_repr_from_buffer_c4 = 4, vk_int_repr_from_buffer_c5 = 5,
@@ -565,7 +571,7 @@ fn body_clone_from(dk: usize, dneg: bool, sk: usize, sneg: bool) {
     drop(d);
     finish_k(s, &sm, k);
 }
-per_kind2!(body_clone_from;
+per_kind2_u!(body_clone_from, 12;
     vk_int_repr_clone_from_i1_i1 = (1, 1), vk_int_repr_clone_from_i1_i2 = (1, 2), vk_int_repr_clone_from_i2_i1 = (2, 1),
     vk_int_repr_clone_from_i2_i2 = (2, 2), vk_int_repr_clone_from_i1_h3 = (1, 3), vk_int_repr_clone_from_i2_h3 = (2, 3),
     vk_int_repr_clone_from_i1_h7 = (1, 7), vk_int_repr_clone_from_i2_h7 = (2, 7), vk_int_repr_clone_from_h3_i1 = (3, 1),
@@ -668,3 +674,97 @@ macro_rules! ones_range {
     )*};
 }
 ones_range!(vk_int_repr_ones_0_66 = (0, 66), vk_int_repr_ones_67_133 = (67, 133), vk_int_repr_ones_134_200 = (134, 200));
+
+// ---------------------------------------------------------------- C05: PartialEq / Hash for Repr, Ord / PartialEq for IBig, UBig
+// Two arbitrary well-formed reprs (classes as above, so the same value occurs with different capacities):
+// `==` iff same value; `cmp` is the order of the values and Equal iff `==`; equal values feed identical data
+// to a Hasher (recorded byte by byte).
+use crate::{ibig::IBig, ubig::UBig};
+use core::cmp::Ordering;
+
+struct Rec {
+    buf: [u8; 64],
+    n: usize,
+}
+impl Hasher for Rec {
+    fn finish(&self) -> u64 {
+        0
+    }
+    fn write(&mut self, bytes: &[u8]) {
+        let mut i = 0;
+        while i < bytes.len() {
+            assert!(self.n < 64);
+            self.buf[self.n] = bytes[i];
+            self.n += 1;
+            i += 1;
+        }
+    }
+}
+fn rec_eq(a: &Rec, b: &Rec) -> bool {
+    let mut ok = a.n == b.n;
+    let mut i = 0;
+    while i < 64 {
+        if i < a.n && a.buf[i] != b.buf[i] {
+            ok = false;
+        }
+        i += 1;
+    }
+    ok
+}
+
+/// Order of the magnitudes sum w[i] 2^(64 i): all words, absent words are 0, the highest difference decides.
+fn ord_mag(a: &Model, b: &Model) -> Ordering {
+    let mut r = Ordering::Equal;
+    let mut i = 0;
+    while i < MAXW {
+        let x = if i < a.len { a.w[i] } else { 0 };
+        let y = if i < b.len { b.w[i] } else { 0 };
+        if x < y {
+            r = Ordering::Less;
+        } else if x > y {
+            r = Ordering::Greater;
+        }
+        i += 1;
+    }
+    r
+}
+/// Order of the signed values (zero is never negative in a Model).
+fn ord_signed(a: &Model, b: &Model) -> Ordering {
+    match (a.neg, b.neg) {
+        (false, false) => ord_mag(a, b),
+        (false, true) => Ordering::Greater,
+        (true, false) => Ordering::Less,
+        (true, true) => ord_mag(b, a),
+    }
+}
+
+fn body_eq_cmp_hash(ka: usize, an: bool, kb: usize, bn: bool) {
+    let (a, ma) = mk(ka, an);
+    let (b, mb) = mk(kb, bn);
+    let same = ma.neg == mb.neg && ord_mag(&ma, &mb) == Ordering::Equal;
+    assert!(same == model_eq(&ma, &mb)); // without leading zeros: same value <=> same sign and words
+    assert!((a == b) == same);
+    let mut ha = Rec { buf: [0; 64], n: 0 };
+    let mut hb = Rec { buf: [0; 64], n: 0 };
+    a.hash(&mut ha);
+    b.hash(&mut hb);
+    if same {
+        assert!(rec_eq(&ha, &hb));
+    }
+    let want = ord_signed(&ma, &mb);
+    assert!((want == Ordering::Equal) == same);
+    let (x, y) = (IBig(a), IBig(b));
+    assert!(x.cmp(&y) == want);
+    assert!(x.partial_cmp(&y) == Some(want));
+    assert!((x == y) == same);
+    if !ma.neg && !mb.neg {
+        let (p, q) = (UBig(x.0), UBig(y.0));
+        assert!(p.cmp(&q) == want);
+        assert!(p.partial_cmp(&q) == Some(want));
+        assert!((p == q) == same);
+    }
+}
+per_kind2_u!(body_eq_cmp_hash, 50;
+    vk_int_repr_eq_cmp_hash_i1_i1 = (1, 1), vk_int_repr_eq_cmp_hash_i1_i2 = (1, 2), vk_int_repr_eq_cmp_hash_i2_i1 = (2, 1),
+    vk_int_repr_eq_cmp_hash_i2_i2 = (2, 2), vk_int_repr_eq_cmp_hash_i1_h3 = (1, 3), vk_int_repr_eq_cmp_hash_h3_i2 = (3, 2),
+    vk_int_repr_eq_cmp_hash_h3_h3 = (3, 3), vk_int_repr_eq_cmp_hash_h3_h5 = (3, 5), vk_int_repr_eq_cmp_hash_h5_h4 = (5, 4));
